@@ -457,6 +457,10 @@ impl Env {
                 println!("replay {}: property held", path.display());
                 0
             }
+            Err(reason) if reason.contains("INFRA:") => {
+                println!("replay {}: inconclusive: {reason}", path.display());
+                2
+            }
             Err(reason) => {
                 println!("replay {}: {reason}", path.display());
                 println!("VIOLATION property={} replay={}", self.property, path.display());
